@@ -443,6 +443,11 @@ func (s *blsThresholdSignatureInspector) reconstructThresholdSignature() (Signat
 	shares := make([]byte, 0, len(s.shares)*SignatureLenBLSBLS12381)
 	signers := make([]index, 0, len(s.shares))
 	for index, share := range s.shares {
+		// `TrustedAdd` does not check the share, a share of a wrong length is not a valid
+		// serialization and would moreover shift the other shares in the flattened array
+		if len(share) != SignatureLenBLSBLS12381 {
+			return nil, errInvalidSignature
+		}
 		shares = append(shares, share...)
 		signers = append(signers, index+1)
 	}
@@ -541,6 +546,14 @@ func BLSReconstructThresholdSignature(size int, threshold int,
 		}
 		m[index(signers[i])] = true
 		indexSigners = append(indexSigners, index(signers[i])+1)
+	}
+
+	// the first (threshold+1) shares are used by the reconstruction: a share of a wrong length
+	// is not a valid serialization and would moreover shift the other shares in the flattened array
+	for _, share := range shares[:threshold+1] {
+		if len(share) != SignatureLenBLSBLS12381 {
+			return nil, errInvalidSignature
+		}
 	}
 
 	thresholdSignature := make([]byte, SignatureLenBLSBLS12381)
